@@ -383,6 +383,21 @@ func (g *Gen) genC14(n int) error {
 							g.emit("vsearch %s q=%s k=1", h, intList(v))
 						}
 					}
+					// the same prefix as the caller's filter would produce it, i.e. WITH the excluded
+					// documents in it; queries sit on vectors of excluded documents inside the prefix
+					var preX, exIn []int
+					for d := 0; d < cut; d++ {
+						preX = append(preX, d)
+						if exset[fmt.Sprint(d)] && vecOfDoc(b, d, fn) != nil && len(exIn) < 4 {
+							exIn = append(exIn, d)
+						}
+					}
+					for _, d := range exIn {
+						v := vecOfDoc(b, d, fn)
+						g.emit("vsearch %s q=%s k=%d elig=%s", h, intList(v), 1+g.r.Intn(3), intList(preX))
+						g.emit("vsearch %s q=%s k=40 elig=%s", h, intList(v), intList(preX))
+						g.st("vec.eligNamesExcluded")
+					}
 					g.emit("vclose %s", h)
 				}
 				g.emit("vstats %s", seg)
@@ -470,10 +485,29 @@ func (g *Gen) bigVecMerge() {
 			most = append(most, d)
 		}
 	}
+	isDropped := map[int]bool{}
+	for _, d := range dropped {
+		isDropped[d] = true
+	}
+	var orig []int // merged document j was document orig[j] of the input
+	for d := 0; d < nd; d++ {
+		if !isDropped[d] {
+			orig = append(orig, d)
+		}
+	}
 	hf := g.fresh("h")
 	g.emit("vopen %s %s vecA filt=1 ex=2,7", hf, m)
 	for _, el := range [][]int{third, most} {
 		g.emit("vsearch %s q=%s k=4 elig=%s", hf, g.randQuery(2), intList(el))
+		// the eligible sets name the excluded documents 2 and 7 (`most`) or not (`third`): a query on
+		// their very vectors must not bring them back
+		for _, j := range []int{2, 7} {
+			if j < len(orig) {
+				if v := vecOfDoc(b, orig[j], "vecA"); v != nil {
+					g.emit("vsearch %s q=%s k=2 elig=%s", hf, intList(v), intList(el))
+				}
+			}
+		}
 		if v := vecOfDoc(b, nd-1, "vecA"); v != nil {
 			g.emit("vsearch %s q=%s k=3 elig=%s", hf, intList(v), intList(el))
 		}
